@@ -2,7 +2,7 @@
    concrete states showing that the hypotheses of the theorems are satisfiable
    (non-vacuity). *)
 From FoxBase Require Import Bytes.
-From FoxC12 Require Import Types Context Ops Spec Corr ProofsBasic ProofsView ProofsNI ProofsClone.
+From FoxC12 Require Import Types Context Ops Spec Corr ProofsBasic ProofsView ProofsNI ProofsParam ProofsClone.
 From Coq Require Import ZArith Lia.
 Open Scope nat_scope.
 Open Scope list_scope.
@@ -150,4 +150,28 @@ Proof.
       repeat (destruct Ho as [<-|Ho]; [vm_compute in Ha; repeat (destruct Ha as [<-|Ha]; [vm_compute; lia|]); destruct Ha|]).
       destruct Ho.
     + split; [vm_compute; reflexivity|]. vm_compute. discriminate.
+Qed.
+
+(* Param(name) on a CloneWith copy of a context matched through an ignored
+   trailing slash: the copy's own params slice still holds what an earlier user
+   of the pooled object left there (tenant=acme, not touched by CloneWith in
+   tsr mode); the getters show the current request's parameter only, and
+   Param of the leftover's name is empty. *)
+Definition staleP : stale :=
+  mkStale None None [(S2B "tenant", S2B "acme")] 1 [] 0 [] None None (mkRec None 0%Z 0%Z false) 128%N false.
+Definition param_ops : list op :=
+  [ OServe 1 6 5 lkT flags0; OPlant 10 staleP; OCloneWith 1 10 2 5 ].
+
+Example param_nonvacuous :
+  exists H', exec true param_ops (heap_with staleA) = Some H' /\
+    c_tsr (ctxs H' 10) = true /\
+    rw_params (raw_of H' 10) = Some [(S2B "tenant", S2B "acme")] /\
+    (exists pv, observe H' 10 = Ok pv /\ v_params pv = [(S2B "a", S2B "TOK")]) /\
+    ctx_param H' (ctxs H' 10) (S2B "a") = Ok (S2B "TOK") /\
+    ctx_param H' (ctxs H' 10) (S2B "tenant") = Ok [].
+Proof.
+  eexists. split; [vm_compute; reflexivity|].
+  split; [reflexivity|]. split; [vm_compute; reflexivity|].
+  split; [eexists; split; vm_compute; reflexivity|].
+  split; vm_compute; reflexivity.
 Qed.
